@@ -6,6 +6,7 @@
 package main
 
 import (
+	"crypto/sha256"
 	"fmt"
 	"os"
 	"sort"
@@ -409,11 +410,19 @@ func main() {
 		maxStates = 2000000
 		maxGroup = 7
 	}
-	seen := map[string]bool{}
+	// canonical keys are stored as 128-bit digests (2e6 full keys plus the frontier would not fit the
+	// address-space limit the harness gives a driver; a collision among < 2^21 keys has probability < 2^-86)
+	seen := map[[16]byte]struct{}{}
+	dig := func(k string) [16]byte {
+		h := sha256.Sum256([]byte(k))
+		var d [16]byte
+		copy(d[:], h[:16])
+		return d
+	}
 	var frontier []node
 	for r := 0; r < nRoots; r++ {
 		w := newWorld(r)
-		seen[w.key()] = true
+		seen[dig(w.key())] = struct{}{}
 		frontier = append(frontier, node{r, nil})
 		rep.States++
 	}
@@ -474,10 +483,10 @@ func main() {
 					continue
 				}
 				k := w.key()
-				if seen[k] {
+				if _, dup := seen[dig(k)]; dup {
 					continue
 				}
-				seen[k] = true
+				seen[dig(k)] = struct{}{}
 				rep.States++
 				rep.Distinct++
 				if touchesShared {
@@ -486,7 +495,10 @@ func main() {
 				if len(h2) <= 3 {
 					rep.Sample(map[string]any{"history": histString(n.root, h2), "state": k})
 				}
-				next = append(next, node{n.root, h2})
+				if d+1 < depth {
+					// states of the last level are checked when they are produced; they have no successors to explore
+					next = append(next, node{n.root, h2})
+				}
 				if len(seen) >= maxStates {
 					capped = true
 					break
